@@ -46,7 +46,8 @@ pub struct Violation {
 pub struct Outcome {
     /// labels of the observable outcomes of this case (histogram / witnesses)
     pub classes: Vec<&'static str>,
-    pub nontrivial: bool,
+    /// number of distinct non-trivial evaluations inside this case (default 1)
+    pub nontrivial: u64,
     /// digest of everything observed (determinism guard)
     pub digest: u64,
     pub violations: Vec<Violation>,
@@ -59,7 +60,7 @@ pub struct Outcome {
 
 impl Outcome {
     pub fn new() -> Self {
-        Outcome { evals: 1, nontrivial: true, ..Default::default() }
+        Outcome { evals: 1, nontrivial: 1, ..Default::default() }
     }
     pub fn class(&mut self, c: &'static str) {
         if !self.classes.contains(&c) {
@@ -184,9 +185,7 @@ impl Agg {
     fn add(&mut self, idx: u64, o: Outcome) {
         self.evals += o.evals;
         self.cases += 1;
-        if o.nontrivial {
-            self.nontrivial += 1;
-        }
+        self.nontrivial += o.nontrivial;
         for c in o.classes {
             *self.classes.entry(c).or_default() += 1;
         }
